@@ -200,6 +200,27 @@ func (mc *MetricsCollector) UpdateBackendConnections(backendName string, connect
 	backend.ActiveConnections = connections
 }
 
+// SyncBackendConnections sets the active connections gauge of a backend to the
+// value read() returns while the metrics lock is held. Reading the live counter
+// under the lock (instead of passing a value read earlier) makes the update
+// that runs last also the one that saw the latest value; with
+// UpdateBackendConnections two concurrent requests could publish their
+// readings in the wrong order and leave the gauge stale.
+func (mc *MetricsCollector) SyncBackendConnections(backendName string, read func() int32) {
+	mc.metrics.mutex.Lock()
+	defer mc.metrics.mutex.Unlock()
+
+	backend, exists := mc.metrics.BackendMetrics[backendName]
+	if !exists {
+		backend = &BackendMetrics{
+			Name: backendName,
+		}
+		mc.metrics.BackendMetrics[backendName] = backend
+	}
+
+	backend.ActiveConnections = read()
+}
+
 // RecordRateLimitedRequest records a rate-limited request
 func (mc *MetricsCollector) RecordRateLimitedRequest() {
 	atomic.AddUint64(&mc.metrics.RateLimitedRequests, 1)
